@@ -36,6 +36,38 @@ CHECKS = {
              "two corpus files.",
         technique="Lean 4 executable semantics + isomorphism search as the judge + enumeration through the real learner",
     ),
+    "C03": dict(
+        category="proof",
+        text="Lean theorem ingest_sem: after ingesting any list of jobs the model holds exactly the successor and "
+             "predecessor multisets the jobs show, per event type. Corollaries for every job list: permuting the jobs "
+             "(ingest_perm), supplying jobs again (ingest_same_members, ingest_idem), permuting the events inside a job "
+             "with distinct ids (ingest_events_perm), renaming event ids injectively and job ids (ingest_rename; "
+             "timestamps do not occur in the model) all give an equivalent model. Tie: the real ingestion gives one and "
+             "the same model on five presentations of every generated job set, equal to the Lean model's. PARTIAL for what "
+             "follows ingestion (gate inference, loop detection, walk over Python sets): C03_walk_full is a stated Prop, "
+             "decided by running the real learner on presentations x interpreter hash seeds in separate processes and "
+             "comparing the languages of the diagrams with the Lean semantics.",
+        ref="DESIGN.md §5 C03",
+        note="Trusted: Lean kernel; axioms propext, Quot.sound, Classical.choice; the janus stand-in's from_event_list. "
+             "The walk half is enumeration (hash seeds 0-2 quick, 0-7 thorough), not proof.",
+        technique="Lean 4 proof (semantic characterisation of ingestion + corollaries) + differential correspondence + "
+                  "multi-process hash-seed runs judged by the Lean diagram semantics",
+    ),
+    "C04": dict(
+        category="proof",
+        text="Lean theorems for every job list and every chunking: ingest_append; json_roundtrip (what is loaded from a "
+             "saved model is equivalent: every type, multiset, count); chunks_through_files (any split into chunks with a "
+             "save and load at every boundary ends in a model equivalent to the one-shot model); cache_coherent (after any "
+             "sequence of updates, reads, removals from a fresh or loaded event, a read returns the tree of the current "
+             "successor family — with the loader as repaired by bfaab07; cache_incoherent_old is the old loader's "
+             "counterexample). Tie: the real learner chunk by chunk through save_events_to_file/load_events_from_file: "
+             "final model == one-shot model == Lean model, saved file == Lean file. PARTIAL for the diagram: its "
+             "equivalence is decided per split by the Lean semantics (rests on C03's unproved clause).",
+        ref="DESIGN.md §5 C04",
+        note="Trusted: Lean kernel; axioms propext, Quot.sound, Classical.choice; pydantic/json exercised not modelled.",
+        technique="Lean 4 proof (model algebra, JSON round trip, cache invariant over operation sequences) + differential "
+                  "correspondence through real files + diagram comparison by the Lean semantics",
+    ),
     "C05": dict(
         category="translation_validation",
         text="PARTIAL. The Lean parser is the grammar of the dialect plus2json consumes (one partition/group, every "
@@ -164,6 +196,21 @@ CHECKS = {
              "pydantic coercion modelled for the generated value kinds; floats excluded.",
         technique="Lean 4 proof (flattening/loop algebra on the extraction model) + differential correspondence against the "
                   "real jq program and JSONDataSource + independent flattening oracle",
+    ),
+    "C14": dict(
+        category="proof",
+        text="Lean theorems: save_load (for every mapping with pairwise distinct target names and every PV event, loading "
+             "what was saved gives the event back), load_string_prev, save_load_dup_cex (why distinctness is needed), "
+             "routes_same_model (whatever order the saved files are listed in, the file route presents a permutation of "
+             "the in-memory route's jobs and learns an equivalent model, by C03a). Tie: the real command line (argparse + "
+             "main_handler) on seeded multi-workflow trace sets x {default, custom} mapping x {sync, async}: the saved "
+             "files equal the in-memory stream of otel_to_pv field by field and equal the Lean model's saved objects; "
+             "PARTIAL for diagrams: both routes' diagrams are compared by the Lean semantics (rests on C03's clause).",
+        ref="DESIGN.md §5 C14",
+        note="Trusted: Lean kernel; axioms propext, Quot.sound, Classical.choice; yaml/json/pydantic/file system exercised "
+             "not modelled; workflow names that map to one file name are excluded (stated assumption).",
+        technique="Lean 4 proof (dictionary algebra for save/load, permutation of jobs) + real-CLI differential correspondence + "
+                  "diagram comparison by the Lean semantics",
     ),
     "C15": dict(
         category="proof",
